@@ -4,7 +4,7 @@
 (* Every operator returns a set of failure records [p, why, key]; the empty  *)
 (* set means the contract holds.  `key` names a listed known finding when    *)
 (* the failure is exactly that finding's deviation, else "".                 *)
-EXTENDS Ranking, Utility, Majority, Levels, AspectElim, Satisfaction, Req
+EXTENDS Ranking, Utility, Majority, Levels, AspectElim, Satisfaction, Electre, Req
 
 Fail(p, why, key) == [p |-> p, why |-> why, key |-> key]
 
@@ -262,6 +262,74 @@ C13(o) ==
                           SMatches(SRanking(SRun(SInit(order), ctx), ctx), obs, nlev)
                 THEN {} ELSE {Fail("C13", "reference", "")})
           \cup (IF SequentialLinksOK(res) THEN {} ELSE {Fail("DRIFT", "satisfaction-links", "")})
+
+
+(* ---- C05 / C06: ELECTRE III end to end ---- *)
+ECrs(st) ==
+  [j \in StCritIds(st) |->
+     LET e == st.params.Criteria[j] IN
+     [ty |-> StType(st)[j], k |-> e.K, q |-> e.Q.B, p |-> e.P.B, v |-> e.V.B,
+      hasq |-> e.Q.B # 0, hasp |-> e.P.B # 0, hasv |-> e.V.B # 0]]
+(* the property's domain: constant thresholds 0 <= q < p < v (each may be absent, veto only with p), k > 0 *)
+EInDomain(st) ==
+  \A j \in StCritIds(st) :
+     LET e == st.params.Criteria[j] IN
+     /\ e.Q.A = 0 /\ e.P.A = 0 /\ e.V.A = 0 /\ e.K > 0
+     /\ e.Q.B >= 0 /\ e.P.B >= 0 /\ e.V.B >= 0
+     /\ (e.P.B # 0 => e.P.B > e.Q.B)
+     /\ (e.V.B # 0 => (e.P.B # 0 /\ e.V.B > e.P.B))
+EDistFun(o, st) ==
+  IF Has(o.case, "sa") THEN [a |-> <<o.case.sa[1], o.case.sa[2]>>, b |-> <<o.case.sb[1], o.case.sb[2]>>]
+  ELSE [a |-> RNorm(st.params.DistillationFun.A, U(o)), b |-> RNorm(st.params.DistillationFun.B, U(o))]
+EObsIdx(res, f) == [a \in RIds(res) |-> res[CHOOSE k \in DOMAIN res : res[k].alternative.id = a].evaluation[f]]
+
+ERef(o, st, tc) ==
+  LET A == SeqSet(ConsideredSeq(st))
+      M == CredMatrix(ECrs(st), StX(st), A, tc)
+      s == EDistFun(o, st)
+      P == Prep(M, A, s)
+      asc == DistilP(P, A, s, MaxCred(M, A), 1, "asc", FALSE)
+      dr == DistilP(P, A, s, MaxCred(M, A), 1, "desc", FALSE)
+      mx == SetMax({dr[a] : a \in A})
+  IN [asc |-> asc, desc |-> [a \in A |-> mx + 1 - dr[a]], fragile |-> Fragile(M, A, s)]
+
+C05(o) ==
+  LET st == EvalState(o)
+      res == Res(o)
+      A == SeqSet(ConsideredSeq(st))
+      oasc == EObsIdx(res, "ascendingIndex")
+      odesc == EObsIdx(res, "descendingIndex")
+      linksOK == \A k \in DOMAIN res :
+                   RLinks(res[k]) = ELinks(oasc, odesc, A, res[k].alternative.id) /\ NoDup(res[k].betterThanOrSameAs)
+      classesOK(f) == {f[a] : a \in A} = 1..Cardinality({f[a] : a \in A})
+  IN IF RIds(res) # A \/ Len(res) # Cardinality(A) THEN {Fail("C05", "entries", "")}
+     ELSE (IF linksOK THEN {} ELSE {Fail("C05", "links", "")})
+          \cup (IF classesOK(oasc) /\ classesOK(odesc) THEN {} ELSE {Fail("C05", "classes", "")})
+          \cup (IF ~EInDomain(st) THEN {}
+                ELSE LET ref == ERef(o, st, TRUE) IN
+                     IF ref.fragile \/ (ref.asc = oasc /\ ref.desc = odesc) THEN {}
+                     ELSE LET dev == ERef(o, st, FALSE) IN
+                          IF ~dev.fragile /\ dev.asc = oasc /\ dev.desc = odesc
+                          THEN {Fail("C05", "indices", "electre-tie-not-concordant")}
+                          ELSE {Fail("C05", "indices", "")})
+
+C06(o) ==
+  LET st == EvalState(o)
+      res == Res(o)
+      A == RIds(res)
+      crs == ECrs(st)
+      x == StX(st)
+      oasc == EObsIdx(res, "ascendingIndex")
+      odesc == EObsIdx(res, "descendingIndex")
+      links(a) == RLinks(res[CHOOSE k \in DOMAIN res : res[k].alternative.id = a])
+      same(a, b) == \A j \in DOMAIN crs : x[a][j] = x[b][j]
+  IN IF ~EInDomain(st) \/ A # SeqSet(ConsideredSeq(st)) THEN {}
+     ELSE (IF \A a \in A : \A b \in A \ {a} : Dominates(crs, x, a, b) =>
+                 (oasc[a] <= oasc[b] /\ odesc[a] <= odesc[b] /\ b \in links(a))
+           THEN {} ELSE {Fail("C06", "dominance", "")})
+          \cup (IF \A a \in A : \A b \in A \ {a} : same(a, b) =>
+                      (oasc[a] = oasc[b] /\ odesc[a] = odesc[b] /\ b \in links(a) /\ a \in links(b))
+                THEN {} ELSE {Fail("C06", "identical", "")})
 
 (* summary of one alternative that must not depend on the listing order *)
 PermSummary(o) ==
